@@ -313,8 +313,8 @@ def check_read_loop(ctx):
         ctx.require(d is not None, f"{cname}._disconnected not found")
         dcfg = cfg_of(d.node)
         st = [n for n in dcfg.real_nodes() if any(c == f"self.{start}" for c in n.call_names())]
-        conds = [(norm(t), v) for n in st for t, v in dcfg.dominating_conditions(n)]
-        ok = len(st) == 1 and any(t in ("self._enabled", "self.enabled") and v for t, v in conds)
+        conds = sorted((t, pol) for n in st for t, pol in cnd.facts(dcfg, n))
+        ok = len(st) == 1 and any(t in ("self._enabled", "self.enabled") and pol for t, pol in conds)
         ctx.ob("C09.P3", f"{cname}._disconnected", ok, "a lost link restarts accepting/connecting while the connection is enabled" if ok else f"_disconnected does not restart the listener exactly when enabled ({conds})", where=d.where)
 
 
